@@ -1,7 +1,7 @@
 import DSymVerif.Props.C17
 #print axioms DSymVerif.C17.decide_yes_iff
 #print axioms DSymVerif.C17.decide_yes_independent
-#print axioms DSymVerif.C17.decide_total
+#print axioms DSymVerif.C17.decide_table
 #print axioms DSymVerif.C17.reasons_distinct
 #print axioms DSymVerif.C17.decide_reasons
 #print axioms DSymVerif.C17.decide_needs_cover
